@@ -9,8 +9,8 @@ INTERNAL = {"RP_pick", "CR_done", "UP_next"}
 WNAMES = ['W_LockContention', 'W_KilledAfterAck', 'W_KilledAfterMarker', 'W_KilledBetweenCreateAndWrite', 'W_4xxThenRerun', 'W_5xxThenRerun',
           'W_StaleReadyList', 'W_ReadUnwritten', 'W_BothCreate', 'W_ExclLost', 'W_StatSeesUploaded', 'W_DeletedUnderParse', 'W_LocalExists']
 C07_CLAUSES = {'OneLocalReport', 'DeleteOnlyAfterReport', 'ReportStable', 'Untouched', 'ReadyMatchesLocal'}
-C08_CLAUSES = {'NoLockLeft', 'OneBodyPerWeek', 'NoResendAfterRecorded', 'MarkerOnlyAfterAck', 'ReplyHandled'}
-SAFETY = ['NoLockLeft', 'ReadyMatchesLocal', 'OneLocalReport', 'OneBodyPerWeek', 'NoResendAfterRecorded', 'MarkerOnlyAfterAck', 'AtMostOneAck']
+C08_CLAUSES = {'LeftoverRetried', 'NoLockLeft', 'OneBodyPerWeek', 'NoResendAfterRecorded', 'MarkerOnlyAfterAck', 'ReplyHandled'}
+SAFETY = ['LeftoverRetried', 'NoLockLeft', 'ReadyMatchesLocal', 'OneLocalReport', 'OneBodyPerWeek', 'NoResendAfterRecorded', 'MarkerOnlyAfterAck', 'AtMostOneAck']
 ACTIONP = ['DeleteOnlyAfterReport', 'ReportStable', 'ServerErrorKeeps', 'ClientErrorDiscards']
 
 
@@ -213,7 +213,8 @@ def run(ctx, prop):
             if o['t'] == 'kill':
                 killed = True
             lines.append({'run': k, 'i': o['i'], 't': o['t'], 'lock': o['lock'], 'count': o['count'], 'ready': o['ready'], 'localr': o['localr'], 'uploaded': o['uploaded'],
-                          'acks': o['acks'], 'posts': [{'w': q['w'], 'reply': q['reply'], 'after': q['after'], 'by': q['by']} for q in o['posts']],
+                          'acks': o['acks'], 'posts': [{'w': q['w'], 'reply': q['reply'], 'after': q['after'], 'by': q['by'], 'n': q['n']} for q in o['posts']],
+                          'nuploaders': len(rcfg['uploaders']), 'maxruns': rcfg['maxRuns'],
                           'untouched': o['untouched'], 'quiet': o['quiet'], 'nokill': not killed, 'filesof': filesof, 'early': early})
     # chunks end at run boundaries; every line knows the index of its run's first line
     chunks, cur = [], []
